@@ -660,17 +660,21 @@ package jet
 //@   check [a-block-hands-up-what-its-body-returned] {C09} returnValue == lastret("(*Runtime).executeList", 0)
 //@   requires RtOK(st) && block != nil && WF(iface(block, "*BlockNode")) && blockParam != nil && WFParams(blockParam) && yieldParam != nil && (len(yieldParam.List) == 0 || WFParams(yieldParam)) && (expression != nil ==> WF(expression)) && (content != nil ==> WFL(content))
 //@   modifies @Interp
-//@   loop 0 entry [every-yield-argument-is-bound] {C08} i == 0
-//@   loop 1 entry [every-declared-parameter-gets-its-default-unless-bound] {C08} i == 0
-//@   loop 1 step [after-its-turn-every-declared-parameter-is-bound-in-the-parameter-scope] {C08} has(st.scope.variables, blockParam.List[prev(i)].Identifier)
+//@   loop 0 entry [every-yield-argument-is-evaluated] {C08} i == 0
+//@   loop 1 entry [every-yield-argument-is-bound] {C08} i == 0
+//@   loop 1 step [after-its-turn-every-yield-argument-is-bound-to-its-value] {C08} has(st.scope.variables, yieldParam.List[prev(i)].Identifier) && st.scope.variables[yieldParam.List[prev(i)].Identifier] == args[prev(i)]
+//@   loop 2 entry [every-declared-parameter-gets-its-default-unless-bound] {C08} i == 0
+//@   loop 2 step [after-its-turn-every-declared-parameter-is-bound-in-the-parameter-scope] {C08} has(st.scope.variables, blockParam.List[prev(i)].Identifier)
+//@   callsite (*Runtime).evalPrimaryExpressionGroup 0 requires [yield-arguments-are-evaluated-in-the-callers-scope-whatever-their-order] {C08} st.scope == old(st.scope) && node == caller.yieldParam.List[caller.i].Expression
 //@   callsite (*Runtime).resolve count 0
 //@   check [every-declared-parameter-is-bound] {C08} !panicking() && (len(blockParam.List) > 0 || len(yieldParam.List) > 0) ==> visits("(*Runtime).newScope", 0) == 1
 //@   callsite (*Runtime).executeList 2 requires [block-body-runs-with-the-yield-context] {C08} list == caller.block.List && st.context == lastret("(*Runtime).evalPrimaryExpressionGroup", 0)
 //@   callsite (*Runtime).executeList 2 requires [a-yield-with-content-installs-its-own-content] {C08} ite(caller.content != nil, st.content != nil, st.content == caller.mycontent)
 //@   callsite (*Runtime).executeList 3 requires [a-yield-with-content-installs-its-own-content] {C08} ite(caller.content != nil, st.content != nil, st.content == caller.mycontent)
 //@   callsite (*Runtime).executeList 3 requires [block-body-runs-in-the-parameter-scope] {C08} list == caller.block.List && st.context == old(st.context) && ite(len(caller.blockParam.List) > 0 || len(caller.yieldParam.List) > 0, st.scope.parent == old(st.scope), st.scope == old(st.scope))
-//@   loop 0 invariant RtOK(st) && 0 <= i && st.scope.variables != nil && st.scope.parent == old(st.scope) && st.context == old(st.context) && st.content == old(st.content) && st.escapeeWriter.Writer == old(st.escapeeWriter.Writer)
-//@   loop 1 invariant RtOK(st) && 0 <= i && st.scope.variables != nil && st.scope.parent == old(st.scope) && st.context == old(st.context) && st.content == old(st.content) && st.escapeeWriter.Writer == old(st.escapeeWriter.Writer)
+//@   loop 0 invariant RtOK(st) && 0 <= i && len(args) == len(yieldParam.List) && st.scope == old(st.scope) && st.context == old(st.context) && st.content == old(st.content) && st.escapeeWriter.Writer == old(st.escapeeWriter.Writer)
+//@   loop 1 invariant RtOK(st) && 0 <= i && len(args) == len(yieldParam.List) && st.scope.variables != nil && st.scope.parent == old(st.scope) && st.context == old(st.context) && st.content == old(st.content) && st.escapeeWriter.Writer == old(st.escapeeWriter.Writer)
+//@   loop 2 invariant RtOK(st) && 0 <= i && st.scope.variables != nil && st.scope.parent == old(st.scope) && st.context == old(st.context) && st.content == old(st.content) && st.escapeeWriter.Writer == old(st.escapeeWriter.Writer)
 //@   ensures [yield-balanced] SameS(st)
 //@   anypanic
 //@   exsures [runtime-valid-on-panic] RtX(st)
